@@ -10,7 +10,9 @@ phases, same order of checks, same data carried between phases.
   about sequencing, options, ids, errors and events.  `Flat.lean` instantiates `MsgOps` for a small
   concrete message (three top-level scalar fields of `internal/testproto.TestAllTypes`).
 * Errors are gRPC codes only.
-* Time: the resource clock is a counter; every `Now()` returns the counter and advances it by
+* Time: instants are integers (the harness uses nanoseconds relative to its clock's origin, so any
+  `time.Time` - zero value, before the epoch, far future, sub-second - is an `Int`); a write time is
+  present-with-value whatever the value. The resource clock is a counter; every `Now()` returns the counter and advances it by
   `cfg.tick` (0 = a fixed clock), so that two reads in one operation are two readings as in the code.
 * Randomness: `cfg.gen r i` is "read `6+i` bytes from the rng and base64url-encode them".
 * Callbacks (id callback, created callback) are recorded in the output.
@@ -54,7 +56,7 @@ def eqOpt {M K : Type} (ops : MsgOps M K) : Option M → Option M → Bool
 /-- `resource.WriteRequest` (`ComputeWriteConfig(opts...)`).  Callbacks are functions; for the id and
 created callbacks only their presence matters (their invocations are recorded in `Out`). -/
 structure WriteReq (M K : Type) where
-  writeTime : Option Nat := none
+  writeTime : Option Int := none
   updateMask : Option K := none
   resetMask : Option K := none
   expectedValue : Option M := none
@@ -81,7 +83,7 @@ structure Cfg (M K R : Type) where
   writable : Option K := none
   icpt : Option (String → String) := none
   /-- clock step per `Now()` call; 0 = fixed clock -/
-  tick : Nat := 1
+  tick : Int := 1
   /-- candidate `i` of `GenerateUniqueId`: read `6+i` bytes, base64url-encode -/
   gen : R → Nat → String × R
 
@@ -154,13 +156,13 @@ def getAndUpdate {σ : Type} (ops : MsgOps M K)
 /-- `resource.Value`: stored message (possibly nil), its change time, the clock counter. -/
 structure VState (M : Type) where
   value : Option M
-  changeTime : Nat
-  clock : Nat
+  changeTime : Int
+  clock : Int
 
 /-- `ValueChange` as sent on the bus by `Value.set`. -/
 structure VEvent (M : Type) where
   value : M
-  time : Nat
+  time : Int
 
 structure VOut (M : Type) where
   val : Option M
@@ -172,7 +174,7 @@ def Value.init (cfg : Cfg M K R) (v : Option M) : VState M :=
   { value := v, changeTime := 0, clock := cfg.tick }
 
 /-- `WriteRequest.updateTime(clock)`: explicit write time, else one clock read. -/
-def updateTimeV (cfg : Cfg M K R) (wr : WriteReq M K) (s : VState M) : Nat × VState M :=
+def updateTimeV (cfg : Cfg M K R) (wr : WriteReq M K) (s : VState M) : Int × VState M :=
   match wr.writeTime with
   | some t => (t, s)
   | none => (s.clock, { s with clock := s.clock + cfg.tick })
@@ -206,13 +208,13 @@ def Value.set (cfg : Cfg M K R) (s : VState M) (msg : M) (wr : WriteReq M K) : V
 /-- `item{body, changeTime}` -/
 structure Item (M : Type) where
   body : M
-  time : Nat
+  time : Int
 
 /-- `resource.Collection`: `byId` as an association list with distinct keys, the clock counter and
 the rng state. -/
 structure CState (M R : Type) where
   items : List (String × Item M)
-  clock : Nat
+  clock : Int
   rng : R
 
 inductive Kind | add | update | remove
@@ -221,7 +223,7 @@ inductive Kind | add | update | remove
 /-- `CollectionChange` -/
 structure CEvent (M : Type) where
   id : String
-  time : Nat
+  time : Int
   kind : Kind
   old : Option M
   new : Option M
@@ -251,10 +253,10 @@ def eraseItem (items : List (String × Item M)) (id : String) : List (String × 
   items.filter (fun kv => kv.1 ≠ id)
 
 /-- `clock.Now()` -/
-def nowC (cfg : Cfg M K R) (s : CState M R) : Nat × CState M R :=
+def nowC (cfg : Cfg M K R) (s : CState M R) : Int × CState M R :=
   (s.clock, { s with clock := s.clock + cfg.tick })
 
-def updateTimeC (cfg : Cfg M K R) (wr : WriteReq M K) (s : CState M R) : Nat × CState M R :=
+def updateTimeC (cfg : Cfg M K R) (wr : WriteReq M K) (s : CState M R) : Int × CState M R :=
   match wr.writeTime with
   | some t => (t, s)
   | none => nowC cfg s
